@@ -193,6 +193,35 @@ Proof.
 Qed.
 
 (* ------------------------------------------------------------------ *)
+(* the RLP encoder emits bytes                                          *)
+(* ------------------------------------------------------------------ *)
+Lemma head_ok base n : base <= 192 -> n < 2 ^ 64 -> bytes_ok (head base n).
+Proof.
+  intros Hb Hn. unfold head. destruct (N.ltb_spec n 56).
+  - constructor; [unfold byte_ok; lia | constructor].
+  - constructor; [|apply beb_ok].
+    unfold byte_ok, len.
+    assert (L : (List.length (beb n) <= 8)%nat) by (apply beb_length; exact Hn).
+    lia.
+Qed.
+
+Lemma encode_ok : forall t, item_ok t -> bytes_ok (encode t).
+Proof.
+  apply (item_ind2 (fun t => item_ok t -> bytes_ok (encode t))
+                   (fun l => Forall item_ok l -> bytes_ok (enc_seq l))).
+  - intros b [Hb Hl]. cbn [encode]. unfold enc_str.
+    destruct b as [|x [|y r]].
+    + apply bytes_ok_app; [apply head_ok; cbn; lia | constructor].
+    + destruct (x <? 128); [exact Hb|]. apply bytes_ok_app; [apply head_ok; cbn; lia | exact Hb].
+    + apply bytes_ok_app; [apply head_ok; [lia | exact Hl] | exact Hb].
+  - intros l IH H. apply item_ok_Lst in H as [HF HL]. cbn [encode]. fold (enc_seq l).
+    apply bytes_ok_app; [apply head_ok; [lia | exact HL] | apply IH, HF].
+  - intros _. constructor.
+  - intros t l IHt IHl HF. inversion HF; subst. unfold enc_seq. cbn [map concat].
+    apply bytes_ok_app; [apply IHt; assumption | apply IHl; assumption].
+Qed.
+
+(* ------------------------------------------------------------------ *)
 (* bytes_eqb helpers                                                    *)
 (* ------------------------------------------------------------------ *)
 Lemma beq_refl b : bytes_eqb b b = true.
@@ -645,12 +674,13 @@ Section AuthProofs.
   Theorem eth_complete chain e0 rid pub :
     let e := mkEtx (e_nonce e0) (e_price e0) (e_gas e0) (e_to e0) (e_value e0) (e_payload e0)
                    (35 + 2 * chain + rid) (e_r e0) (e_s e0) in
-    etx_wf e -> bytes_ok (encode (etx_item e)) ->
+    etx_wf e ->
     (rid = 0 \/ rid = 1) -> validate_sig rid (e_r e) (e_s e) = true ->
     recover (sighash_155 keccak chain e) (pad32 (e_r e) ++ pad32 (e_s e)) rid = Some pub ->
     verify_eth chain (honest_eth chain e0 rid pub) = Accept.
   Proof.
-    intros e W Hb Hr V R. unfold honest_eth. fold e.
+    intros e W Hr V R. unfold honest_eth. fold e.
+    assert (Hb : bytes_ok (encode (etx_item e))) by (apply encode_ok, W).
     apply verify_eth_accept.
     set (enc := encode (etx_item e)).
     assert (F : from_hex (to_hex enc) = enc) by (apply from_to_hex; [exact Hb | apply encode_nonempty]).
@@ -670,5 +700,34 @@ Section AuthProofs.
       + replace (27 + rid + 256 - 27) with (rid + 1 * 256) by lia.
         rewrite N.mod_add by lia. rewrite N.mod_small by lia. reflexivity.
     - apply compare_tx_iff. repeat split; reflexivity.
+  Qed.
+  (* ---------------- the entry point ---------------- *)
+  Theorem verify_dispatch chain cn t :
+    verify chain cn t = Accept ->
+    (t_type t <> eth_type /\ verify_native chain t = Accept) \/
+    (t_type t = eth_type /\ verify_eth cn t = Accept).
+  Proof.
+    unfold Model.verify. destruct (Z.eqb_spec (t_type t) eth_type) as [E|E]; intro A; [right|left]; auto.
+  Qed.
+
+  Theorem verify_field_mutation_rejected chain cn t t' :
+    t_type t <> eth_type -> verify chain cn t = Accept -> mut1 t t' -> t_type t' <> eth_type ->
+    sha256 (preimage t') <> sha256 (preimage t) ->
+    verify chain cn t' = RChainId \/ verify chain cn t' = RHash.
+  Proof.
+    intros T A M T' NC. unfold Model.verify in *.
+    destruct (Z.eqb_spec (t_type t) eth_type); [contradiction|].
+    destruct (Z.eqb_spec (t_type t') eth_type); [contradiction|].
+    eapply native_field_mutation_rejected; eauto.
+  Qed.
+
+  (* re-typing an accepted native transaction as an Ethereum wrapper: accepted only if the SHA-256 digest of
+     the native preimage equals the Keccak digest of the bytes ExtraData spells *)
+  Theorem type_to_eth_mutation chain cn t :
+    verify_native chain t = Accept -> verify_eth cn (set_type t eth_type) = Accept ->
+    sha256 (preimage t) = keccak (from_hex (t_extra t)).
+  Proof.
+    intros A A'. apply native_accept_iff in A as (_ & Hh & _).
+    apply eth_sound in A' as (e & a & _ & _ & _ & _ & _ & _ & _ & _ & K). cbn in K. congruence.
   Qed.
 End AuthProofs.
